@@ -106,6 +106,7 @@ def shards(tier, seed):
                 sh.append(("sweep", conn, tr, h, c))
             sh.append(("sweep", conn, tr, hs[k % len(hs)], 0))  # the target grants connection id 0
     sh += [("sweep", conn, "connected-u", hs[(conn // 100 + seed) % len(hs)], hs[(conn // 50 + 3) % len(hs)]) for conn in (500, 4000)]
+    sh += [("oversize", tr) for tr in ("connected", "ucmm", "ucsend")]
     sh.append(("corpus",))
     sh += [("corpus", regime) for regime in ("3/4", "1/2", "1", "tail1", "tail3", "tail21", "tail23")]  # the same corpus with every send() accepting only part of the frame
     # the call histories of C10 (one transport fault at every I/O index): frames after a failed close / reopen etc.
@@ -128,6 +129,11 @@ def run_shard(shard, tier, seed):
         _, conn, tr, h, c = shard
         sweep(rep, conn, tr, h, c, lengths_for(conn, tr, tier))
         rep.sample({"sweep": [conn, tr, hex(h), hex(c)], "lengths": len(lengths_for(conn, tr, tier))})
+    elif shard[0] == "oversize":
+        # request data beyond what the 16-bit length fields can express (and just below): refused before anything is written, or framed consistently
+        big = [481, 1000, 4001, 20000] + list(range(65440, 65560)) + [65535 + 24, 70000, 131072, 131072 + 30]
+        sweep(rep, 4000, shard[1], corpus.HANDLES[seed % len(corpus.HANDLES)], corpus.HANDLES[(seed + 2) % len(corpus.HANDLES)], big)
+        rep.sample({"oversize": shard[1], "lengths": len(big)})
     elif shard[0] == "histories":
         from . import c10
 
